@@ -46,3 +46,21 @@ reg('C12',
     level_text='Exhaustive over the full 16-bit code space for classification, and over every transition of the bounded register state space for latching, clearing and SRQ announcement.',
     level_note='same trusted base as C11; the SRQ callback is observed together with the STB value read at that instant',
     design_ref='DESIGN.md section 3 / C12')
+
+reg('C10',
+    title='error queue is a bounded FIFO that marks overflow and owns its texts',
+    src='c10_fifo.c', engine='mcx', ldflags=['-Wl,--wrap=strndup,--wrap=free'],
+    configs={'quick': ['def', 'noinfo'], 'thorough': ['def', 'noinfo']},
+    deadline={'quick': 100, 'thorough': 1200},
+    level=MC,
+    technique='explicit-state model checking (BFS to the fix-point) of the real queue in lock-step with a reference FIFO, with allocation faults as operations and an allocator ledger',
+    rule=('explicit-state BFS to the fix-point, one run per queue capacity (quick 1..3, thorough 1..4): operations = push of 3 codes x {no text, "a", bb"c, '
+          'bb"c with info_len 2 (thorough: + 300-byte text)} x allocator answer {ok, NULL}, SCPI_ErrorPop (+ release of the returned text), '
+          'SCPI_ErrorClear, SCPI_ErrorCount, SYST:ERR?, SYST:ERR:COUN?, *CLS, two SYST:ERR? in one message; key = wr/rd/count, all ring slots, '
+          'allocator slots, registers, model queue; every transition is compared with the reference FIFO and the allocator ledger; '
+          'non-trivial = transition that pushes or changes the number of queued errors'),
+    assumptions=['strndup/free are replaced at link time (--wrap) by a slot arena; freed and unused arena bytes are ASan-poisoned',
+                 'error codes and texts outside the alphabet behave alike (the queue never inspects them)'],
+    level_text='Exhaustive for capacities 1..3 (quick) / 1..4 (thorough): the BFS reaches the fix-point of the reachable state set, so every history of any length over the operation alphabet is covered, including every placement of an allocation failure.',
+    level_note='trusts the link-time allocator wrapper (all library allocations go through strndup/free) and ASan manual poisoning',
+    design_ref='DESIGN.md section 3 / C10')
